@@ -109,6 +109,9 @@ struct FileJob {
     name: String,
     content: Content,
     tmpfs: bool,
+    /// fallocate the whole file first, then write the data: extents stay flagged UNWRITTEN until write-back
+    #[serde(default)]
+    prealloc: bool,
 }
 
 #[derive(Serialize, Deserialize, Default)]
@@ -138,7 +141,25 @@ fn check_file_maps(w: &Worker, job: &FileJob, acc: &mut Acc) {
     let path = format!("{}/c19-file", base);
     let scratch = format!("{}/c19-scratch", base);
     let _ = std::fs::remove_file(&path);
-    if let Err(e) = write_content(std::path::Path::new(&path), &job.content) {
+    let wr = if job.prealloc {
+        (|| -> Result<(), String> {
+            let f = std::fs::OpenOptions::new().write(true).create(true).truncate(true).open(&path).map_err(|e| e.to_string())?;
+            use std::os::unix::io::AsRawFd;
+            if job.content.len() > 0 {
+                let r = unsafe { libc::fallocate(f.as_raw_fd(), 0, 0, job.content.len() as i64) };
+                if r != 0 {
+                    return Err(format!("fallocate: {}", std::io::Error::last_os_error()));
+                }
+            }
+            for (a, b) in job.content.segments() {
+                f.write_all_at(&job.content.chunk(a, (b - a) as usize), a).map_err(|e| e.to_string())?;
+            }
+            Ok(())
+        })()
+    } else {
+        write_content(std::path::Path::new(&path), &job.content)
+    };
+    if let Err(e) = wr {
         acc.errors.push(e);
         return;
     }
@@ -287,15 +308,23 @@ pub fn run(ctx: &Ctx) -> Report {
         for units in c01::all_layouts(if q { 5 } else { 8 }) {
             for tail in [0u64, 1, 4095] {
                 let name: String = units.iter().map(|&b| if b { 'D' } else { 'H' }).collect();
-                jobs.push(FileJob { name: format!("{}+{}{}", name, tail, if tmpfs { "@tmpfs" } else { "@ext4" }), content: Content::Layout { unit: 4096, units: units.clone(), tail, seed: 21 }, tmpfs });
+                jobs.push(FileJob { name: format!("{}+{}{}", name, tail, if tmpfs { "@tmpfs" } else { "@ext4" }), content: Content::Layout { unit: 4096, units: units.clone(), tail, seed: 21 }, tmpfs, prealloc: false });
             }
         }
         for n in if q { vec![31usize, 32, 33, 65] } else { vec![1, 31, 32, 33, 64, 65, 96, 97, 100] } {
-            jobs.push(FileJob { name: format!("{}-extents{}", n, if tmpfs { "@tmpfs" } else { "@ext4" }), content: c11::many_extents(n, 16384), tmpfs });
+            jobs.push(FileJob { name: format!("{}-extents{}", n, if tmpfs { "@tmpfs" } else { "@ext4" }), content: c11::many_extents(n, 16384), tmpfs, prealloc: false });
         }
-        jobs.push(FileJob { name: format!("empty{}", if tmpfs { "@tmpfs" } else { "@ext4" }), content: Content::Bytes(String::new()), tmpfs });
-        jobs.push(FileJob { name: format!("dense-small{}", if tmpfs { "@tmpfs" } else { "@ext4" }), content: Content::Gen { len: 5000, seed: 1 }, tmpfs });
+        jobs.push(FileJob { name: format!("empty{}", if tmpfs { "@tmpfs" } else { "@ext4" }), content: Content::Bytes(String::new()), tmpfs, prealloc: false });
+        jobs.push(FileJob { name: format!("dense-small{}", if tmpfs { "@tmpfs" } else { "@ext4" }), content: Content::Gen { len: 5000, seed: 1 }, tmpfs, prealloc: false });
     }
+    // preallocated files: written but not yet written back, the extents are still flagged UNWRITTEN
+    for units in c01::all_layouts(if q { 3 } else { 5 }) {
+        for tail in [0u64, 100] {
+            let name: String = units.iter().map(|&b| if b { 'D' } else { 'H' }).collect();
+            jobs.push(FileJob { name: format!("prealloc-{}+{}@ext4", name, tail), content: Content::Layout { unit: 4096, units: units.clone(), tail, seed: 22 }, tmpfs: false, prealloc: true });
+        }
+    }
+    jobs.push(FileJob { name: "prealloc-dense-300000@ext4".into(), content: Content::Gen { len: 300_000, seed: 23 }, tmpfs: false, prealloc: true });
     let njobs = jobs.len();
     let accs = crate::explore::par_work(&ctx.pool, jobs, Acc::default, |w, job: FileJob, _more, acc: &mut Acc| {
         check_file_maps(w, &job, acc);
